@@ -17,6 +17,7 @@ after which completion is unreachable can never be recovered by the real handler
 from __future__ import annotations
 
 from ..atsq import ename, mode_of, state_of, step_of
+from ..model import AnalysisError
 from ..core import Ctx, Evidence, Finding, witness_of
 
 
@@ -83,9 +84,61 @@ def check(ctx: Ctx, ev: Evidence) -> list[Finding]:
         ev.inst("C03-R1c", f"{name}: {ok}", "ok" if ok else "violation")
         if not ok:
             out.append(Finding("C03-R1c", key, msg, "", witness_of(src, fin_edge) if "Finished" in name and fin_edge is not None else None))
+    out += eof_fields_recorded(ctx, ev, dst)
     out += single_drop_recoverability(ctx, ev, src, dst)
     ev.extra["explanation"] = "acceptance matrix (step x retransmitted PDU kind) read from the abstract transition systems of both handlers; recovery/liveness under fault schedules is NOT decided"
     ev.assume("the surrounding entity acknowledges EOF PDUs of transactions the addressed handler already closed (acknowledge_inactive_eof_pdu, C20-R3)")
+    return out
+
+
+def eof_fields_recorded(ctx: Ctx, ev: Evidence, dst) -> list[Finding]:
+    """C03-R1d: the completion check compares the computed checksum with a stored field; every call that accepts (acknowledges)
+    an EOF PDU must store that field, whichever entry path the EOF took (EOF after Metadata, EOF before Metadata, EOF as the
+    first PDU) - otherwise the transfer recovered from a lost Metadata PDU can never verify."""
+    import ast as _ast
+    ev.rule("C03-R1d", "every call that acknowledges an EOF PDU records the checksum field the completion check later compares against", 2)
+    out: list[Finding] = []
+    prog = ctx.prog
+    fld = None
+    for fi in prog.functions.values():
+        if fi.cls != dst.h.cls:
+            continue
+        calls = [n for n in _ast.walk(fi.node) if isinstance(n, _ast.Call) and isinstance(n.func, _ast.Attribute) and n.func.attr == "calculate_checksum"]
+        if not calls:
+            continue
+        names = {t.id for a in _ast.walk(fi.node) if isinstance(a, _ast.Assign) and any(c is a.value for c in calls) for t in a.targets if isinstance(t, _ast.Name)}
+        for c in _ast.walk(fi.node):
+            if isinstance(c, _ast.Compare) and len(c.ops) == 1 and isinstance(c.ops[0], (_ast.Eq, _ast.NotEq)):
+                sides = [c.left, c.comparators[0]]
+                for a, b in (sides, sides[::-1]):
+                    if ((isinstance(a, _ast.Name) and a.id in names) or any(x is a for x in calls)) and isinstance(b, _ast.Attribute):
+                        fld = b.attr
+    if fld is None:
+        raise AnalysisError("the comparison of the computed checksum with a stored field was not found in the destination handler")
+    groups: dict[str, dict[str, int]] = {}
+    wit: dict[str, object] = {}
+    for e in dst.edges:
+        if e.label != ("state_machine", "EOF") or e.exc is not None:
+            continue
+        acks = [x for x in e.ev if x.kind == "pdu" and x.name == "ACK_EOF"]
+        if not acks:
+            continue
+        stores = [x for x in e.ev if x.kind == "store"]
+        entry = next((x.func.split(".")[-1] for x in stores if x.name.endswith(".file_size_eof")), acks[0].func.split(".")[-1])
+        g = groups.setdefault(entry, {"ok": 0, "bad": 0})
+        if any(x.name.endswith("." + fld) for x in stores):
+            g["ok"] += 1
+        else:
+            g["bad"] += 1
+            wit.setdefault(entry, e)
+    if not groups:
+        raise AnalysisError("no EOF-acknowledging edge in the destination ATS")
+    for entry, g in sorted(groups.items()):
+        ok = g["bad"] == 0
+        ev.inst("C03-R1d", f"EOF accepted through {entry}: field `{fld}` stored on {g['ok']} edges, not stored on {g['bad']}", "ok" if ok else "violation")
+        if not ok:
+            out.append(Finding("C03-R1d", f"dest handler | EOF accepted without recording its checksum | {entry}",
+                               f"an EOF PDU accepted through {entry} is acknowledged but its checksum is not stored in `{fld}`: the completion check after the recovery compares against the initial value and can never succeed", "", witness_of(dst, wit[entry])))
     return out
 
 
